@@ -226,8 +226,6 @@ def gen_dataset(rng, present=None, size=None):
         present |= {'keypoints', 'points3d'}
     if present & {'keypoints', 'descriptors', 'global_features', 'matches'}:
         present.add('records_camera')
-    if 'records_gnss' in present and False:
-        pass
 
     cur = [None]
 
@@ -825,13 +823,11 @@ def tokens_of(text):
 
 
 def cam_canon(tok):
+    """the canonical parameter string the real Camera class makes of a field (None: it raises)"""
+    import kapture
     try:
-        v = float(tok)
-    except ValueError:
-        return None
-    try:
-        return str(int(v)) if v.is_integer() else str(v)
-    except (OverflowError, ValueError):
+        return kapture.Camera('UNKNOWN_CAMERA', [tok, tok]).sensor_params[1]
+    except (ValueError, OverflowError, AssertionError, TypeError):
         return None
 
 
@@ -1129,37 +1125,35 @@ def layout_text(rng, part, row_lines, fancy=True, header=None, p3d_header=None):
     return ''.join(out)
 
 
-def writer_header(part):
-    """the header comment the real writer emits (read from the generated tables module)"""
-    import importlib.util
-    spec = importlib.util.spec_from_file_location('tables_codec', os.path.join(kv.VERIF, 'harness', 'tables', 'codec.py'))
-    global _HDRS
-    try:
-        return _HDRS.get(part)
-    except NameError:
-        mod = importlib.util.module_from_spec(spec)
-        spec.loader.exec_module(mod)
-        cap, p3, _ = mod.writer_headers()
-        _HDRS = {k[:-4]: v[0] for k, v in cap.items()}
-        _HDRS['points3d:3'] = p3[3][1]
-        _HDRS['points3d:6'] = p3[6][1]
-        return _HDRS.get(part)
+_TABLES_MOD = None
 
 
-def dtype_accepts():
-    import importlib.util
-    global _DTA
-    try:
-        return _DTA
-    except NameError:
+def _tables_mod():
+    global _TABLES_MOD
+    if _TABLES_MOD is None:
+        import importlib.util
         spec = importlib.util.spec_from_file_location('tables_codec', os.path.join(kv.VERIF, 'harness', 'tables', 'codec.py'))
         mod = importlib.util.module_from_spec(spec)
         spec.loader.exec_module(mod)
-        _, _, probes = mod.writer_headers()
-        _DTA = {}
+        cap, p3, probes = mod.writer_headers()
+        hdrs = {k[:-4]: v[0] for k, v in cap.items()}
+        hdrs['points3d:3'] = p3[3][1]
+        hdrs['points3d:6'] = p3[6][1]
+        dta = {}
         for kind, txt, canon in probes:
-            _DTA.setdefault(kind, {})[txt] = canon
-        return _DTA
+            dta.setdefault(kind, {})[txt] = canon
+        _TABLES_MOD = (hdrs, dta)
+    return _TABLES_MOD
+
+
+def writer_header(part):
+    """the header comment the real writer emits (captured as harness/tables/codec.py does)"""
+    return _tables_mod()[0].get(part)
+
+
+def dtype_accepts():
+    """feature kind -> {element-type text accepted by the reader of this tree: canonical name}"""
+    return _tables_mod()[1]
 
 
 # ---- independent reader written from the specification (oracle of C02, no Coq, no kapture code)
